@@ -87,6 +87,12 @@ class Prop(C02):
                     if nxt: delta[net] = nxt
                     else: delta.pop(net, None)
             loc = {x[0]: x for x in st[0]}
+            if len(st) > 7:
+                for m, lv in ((1, st[7][0]), (2, st[7][1])):
+                    got = {x[0]: [tuple_(q) for q in map(tuple, x[1])] for x in lv}
+                    want = {n: [tuple_(q) for q in map(tuple, x[5])][:m] for n, x in loc.items()}
+                    if {n: [repr(q) for q in v] for n, v in got.items()} != {n: [repr(q) for q in v] for n, v in want.items()}:
+                        return 'step %d: collect_loc_rib_paths_limited(%d) is not the %d-path window of the Loc-RIB' % (k, m, m)
             # destination ids unique among live prefixes
             dids = [x[1] for x in st[0]]
             if len(set(dids)) != len(dids):
